@@ -2,8 +2,8 @@
    This file holds only the statements, the closing [exact]s and Print Assumptions.
    The clauses (clause_select, clause_filters, clause_funcarg, clause_larger, clause_values, clause_group, clause_order,
    clause_defined) are spelled out in Alias.v section 7; their fragment versions in lemmas/AliasFinal.v section 1. *)
-From PV Require Import Base Crit gen.TermsTable Terms TermsCorr gen.C13Table Alias
-  lemmas.AliasLemmas lemmas.AliasStmt lemmas.AliasFinal.
+From PV Require Import Base Crit gen.TermsTable Terms TermsCorr Page gen.QueryTable Query gen.C13Table Alias
+  lemmas.AliasLemmas lemmas.AliasStmt lemmas.AliasFinal lemmas.AliasNested.
 
 (* for all statements (ten classes x select list x join criterion x WHERE x GROUP BY x HAVING x ORDER BY), all terms of the
    expression model at every depth, all non-empty alias names *)
@@ -85,3 +85,14 @@ Print Assumptions C13_rest_holds.
 Example C13_example : example_texts.
 Proof. exact example_texts_hold. Qed.
 Print Assumptions C13_example.
+
+(* nested statements (shared statement model Query.v, validated against pypika by the nested correspondence family): the
+   GROUP BY-alias switch, once off, stays off through every chain of nested statements of arbitrary classes; Oracle and
+   SQL Server statements switch it off themselves, and they are the only classes that do (extracted class table) *)
+Theorem C13_nested_groupby_switch_inherited :
+  (forall cs k, k_gba k = false -> k_gba (fold_left (fun k' c => defaults c k') cs k) = false)
+  /\ (forall k, k_gba (defaults COracle k) = false /\ k_gba (defaults CMSSQL k) = false
+               /\ k_gba (top_ctx COracle) = false /\ k_gba (top_ctx CMSSQL) = false)
+  /\ (forall c, cls_gba c = match c with COracle | CMSSQL => false | _ => true end).
+Proof. exact (conj gba_inherited_chain (conj gba_off_oracle_mssql gba_classes)). Qed.
+Print Assumptions C13_nested_groupby_switch_inherited.
